@@ -144,12 +144,16 @@ def check_readers(ctx):
         n_loops += 1
         t = H.ast
         term = None
-        if isinstance(t, ast.Compare) and len(t.ops) == 1 and norm(t.left) == "parser.peek_token().value" and isinstance(t.comparators[0], ast.Constant) and isinstance(t.comparators[0].value, str):
-            lit = t.comparators[0].value
-            if isinstance(t.ops[0], ast.NotEq):
-                term = {lit}
-            elif isinstance(t.ops[0], ast.NotIn):
-                term = {lit[i:j] for i in range(len(lit) + 1) for j in range(i, len(lit) + 1)}  # `x not in "ab"` is a substring test
+        stay = cnd.canon(t, True)  # what holds while the loop goes on
+        if len(stay) == 1:
+            (atom, pol), = stay
+            m = re.fullmatch(r"parser\.peek_token\(\)\.value (==|in) ('(?:[^'\\]|\\.)*'|\"(?:[^\"\\]|\\.)*\")", atom)
+            if m and not pol:
+                lit = ast.literal_eval(m.group(2))
+                if m.group(1) == "==":
+                    term = {lit}
+                else:
+                    term = {lit[i:j] for i in range(len(lit) + 1) for j in range(i, len(lit) + 1)}  # `x not in "ab"` is a substring test
         ctx.require(term is not None, f"{q}: loop condition `{norm(t)}` is not a terminator test on the next token")
         ok = term == {">"}
         ctx.ob("C15.P1", q, ok, "the item body ends only at '>'" if ok else
@@ -166,13 +170,13 @@ def check_readers(ctx):
     ctx.touch(ri)
     cfg = cfg_of(ri.node)
     raises = [n for n in cfg.real_nodes() if isinstance(n.ast, ast.Raise)]
-    conds = [[(norm(t), v) for t, v in cfg.dominating_conditions(r)] for r in raises]
-    ok = any(("start_char.value != '<'", True) in c for c in conds)
+    conds = [cnd.facts(cfg, r) for r in raises]
+    ok = any(("start_char.value == '<'", False) in c for c in conds)
     ctx.ob("C15.P1", ri.qualname, ok, "an item must start with '<'" if ok else "a missing '<' is not refused", key="open", where=ri.where)
-    ok = any(("data_type.value.upper() not in cls._subclasses_by_sml", True) in c for c in conds)
+    ok = any(("data_type.value.upper() in cls._subclasses_by_sml", False) in c for c in conds)
     ctx.ob("C15.P1", ri.qualname, ok, "an unknown type name is refused" if ok else "an unknown type name is not refused with an exception", key="unknown-type", where=ri.where)
     rets = [n for n in cfg.real_nodes() if isinstance(n.ast, ast.Return)]
-    ok = len(rets) == 1 and norm(rets[0].ast.value) == "cls._subclasses_by_sml[data_type.value.upper()].from_sml(parser)"
+    ok = len(rets) == 1 and rules.expand(ri.node, rets[0].ast.value) == "cls._subclasses_by_sml[parser.get_token().value.upper()].from_sml(parser)"
     ctx.ob("C15.T2", ri.qualname, ok, "the reader dispatches on the upper-cased type name through the SML registry" if ok else "the item reader does not dispatch through _subclasses_by_sml[type.upper()]", key="dispatch", where=ri.where)
 
 
@@ -250,14 +254,8 @@ def check_names_and_numbers(ctx):
     to = repo.method("Item", "to_sml", inherited=False)
     ok = "self._sml_type" in " ".join(norm(s) for s in rules.func_stmts(to.node))
     ctx.ob("C15.T2", to.qualname, ok, "items are written with their registered type name" if ok else "to_sml does not write _sml_type", where=to.where)
-    fmts = {"ItemNumber": ("f'{value}'", "cls._type(item.value)"), "ItemB": ("hex(value)", "int(item.value, 0)"), "ItemBOOLEAN": ("'0x1' if value else '0x0'", "int(item.value, 0)")}
-    for cname, (w, r) in fmts.items():
-        fm = repo.method(cname, "_format_value", inherited=False)
-        rd = repo.method(cname, "_read_sml_token", inherited=False)
-        rets = [s for s in rules.func_stmts(fm.node) if isinstance(s, ast.Return)]
-        okw = len(rets) == 1 and norm(rets[0].value) == w
-        okr = any(isinstance(s, ast.Assign) and norm(s.value) == r for s in rules.func_stmts(rd.node))
-        ctx.ob("C15.T2", cname, okw and okr, f"{cname}: values are written as {w} and read with {r}" if (okw and okr) else f"{cname}: writer `{norm(rets[0].value) if rets else None}` / reader do not match the pair ({w}, {r})", where=fm.where)
+    # how each family writes and reads one number (f'{value}' / cls._type, hex / int(.., 0), '0x1'|'0x0' / int(.., 0)) is
+    # decided by agreement with the reference models of _format_value and _read_sml_token (C15.M1)
     fs = repo.method("Item", "from_sml", inherited=False)
     txt = " ".join(norm(s) for s in rules.func_stmts(fs.node))
     ok = "cls(cls._read_items(sml, cls._read_sml_token))" in txt and "cls(cls._read_sml_token(sml))" in txt
